@@ -63,7 +63,7 @@ theorem impCount_mono (a b : Int) (l : List Int) (h : a â‰¤ b) : impCount a l â‰
 theorem impCount_le_len (a : Int) (l : List Int) : impCount a l â‰¤ l.length :=
   List.length_filter_le _ _
 
-theorem IMPS_LIST_asc : Asc IMPS_LIST := by simp [IMPS_LIST, Asc]
+theorem IMPS_LIST_asc : Asc IMPS_LIST := by simp [IMPS_LIST, Generated.Score.IMPS_LIST, Asc]
 
 /-- the table in score.py *is* the official scale -/
 theorem IMPS_LIST_is_official : IMPS_LIST = impThresholds := by decide
